@@ -8,7 +8,7 @@ python3 - <<'PY'
 import sys, os
 sys.path.insert(0, "checks")
 import framework as fw
-fw.build("std64")
+fw.build("std64", "c01")
 d = os.path.join(fw.RUN, "setup"); os.makedirs(d, exist_ok=True)
 print(fw.lib_selfcheck(d))
 PY
